@@ -29,6 +29,38 @@ def refused_then_again():
     return out
 
 
+def card_first():
+    """What the card presented just before says about itself (limits, application, names) does not change what is reserved or released:
+    read_card answered with a status information carrying every TLV element the library decodes, then begin and commit."""
+    def ber(tag, body):
+        t = [tag >> 8, tag & 255] if tag > 255 else [tag]
+        return t + [len(body)] + list(body)
+    def bcd(n, nbytes):
+        d = "%0*d" % (2 * nbytes, n)
+        return [int(d[i]) * 16 + int(d[i + 1]) for i in range(0, len(d), 2)]
+    uid = ber(0x4c, [0x04, 0xa1, 0xb2, 0xc3])
+    app = ber(0x60, ber(0x43, [0xa0, 0, 0, 0, 4, 0x10, 0x10]))
+    out = []
+    k = 0
+    for limit in (0, 1, 99, 2499, 2500, 2501, 10 ** 6, 10 ** 12 - 1):
+        for nb in (6, 3):
+            for around in (uid, uid + app, app):
+                for pre in (2500, 100):
+                    body = ber(0x1f0b, bcd(limit % (100 ** nb), nb)) + around
+                    bmp06 = [0x06, len(body)] + body
+                    fb = [0x27, 0x00] + bmp06
+                    frame = [0x04, 0x0f, len(fb)] + fb
+                    k += 1
+                    calls = [{"op": "read_card"}, {"op": "begin", "token": [97], "amount": []},
+                             {"op": "commit", "token": [97], "amount": [[], [1], [2, 5, 0, 0], [9, 9, 9, 9, 9]][k % 4]}]
+                    if k % 3 == 0:
+                        calls = calls[:2] + [{"op": "read_card"}, {"op": "begin", "token": [98], "amount": []}] + calls[2:]
+                    out.append({"config": {"pre": [int(c) for c in str(pre)], "max": 2}, "calls": calls,
+                                "plan": {"exchanges": [], "scripts": {"ReadCard": [{"script": [frame]}]},
+                                         "default": {"o": "ok", "status": {"amount": [1]}, "uid": [1, 2, 3, 4]}}})
+    return out
+
+
 def run(chk):
     wd = vlib.workdir("C08")
     thorough = chk.tier == "thorough"
@@ -38,7 +70,8 @@ def run(chk):
     walks = cl.random_walks(chk.seed + 8, 3000 if thorough else 300, 6)
     again = refused_then_again()
     scripts = cl.script_walks(chk, binary, wd, chk.seed + 8, 2000 if thorough else 150)
-    out = cl.run_scenarios(binary, sc + again + walks + scripts, wd, "c08")
+    cards = card_first()
+    out = cl.run_scenarios(binary, sc + again + walks + scripts + cards, wd, "c08")
     outs, ifl, pfl = cl.validate(chk, out, wd, "c08", shard=600)
     cl.report(chk, outs, ifl, pfl, {"P08", "abnormal"}, WHAT)
     chk.cov["traces_validated_against_impl"] = len(outs)
@@ -46,6 +79,7 @@ def run(chk):
     chk.cov["evaluations"] = len(outs)
     chk.cov["distinct_nontrivial"] = len(sc)
     chk.cov["refused_release_histories"] = len(again)
+    chk.cov["card_first_histories"] = len(cards)
     chk.cov["rule"] = ("TLC generates the boundary grid: pre-authorised amounts {0, 1, 9, 10, 2500, 10^6-1, 10^6, 10^11, 10^12-1%s} x final amounts "
                        "{0, pre-1, pre, pre+1, 2^32-1, 2^32, 2^63, u64::MAX, ..} x currencies {752, 826, 978} x receipt numbers 1..9999 x tokens over "
                        "the CP437 alphabet x status-field shapes; begin + commit run against the real client; TLC decodes the requests with the "
